@@ -355,7 +355,8 @@ def run(ctx):
     ctx.rule("R9.2", "to_xml and from_xml of a simple type apply reciprocal scale factors")
     stm = prog.modules["pptx.oxml.simpletypes"]
     nst = 0
-    for c in stm.classes.values():
+    # every simple type of the program (the family may be split over modules)
+    for c in [k_ for k_ in prog.all_classes() if k_.module.name.startswith("pptx.oxml")]:
         if not any(k.name == "BaseSimpleType" for k in prog.mro(c)):
             continue
         tx, fx = prog.lookup(c, "convert_to_xml"), prog.lookup(c, "convert_from_xml")
